@@ -133,6 +133,11 @@ theorem inv_step {s s' : State} {l : Label} (h : Inv s) (hs : step s l = some s'
     cases ho : s.objs[i]? with
     | none => simp [ho] at hs
     | some o => simp [ho] at hs; subst hs; exact inv_unregisterLocked h o.addr
+  | writeGaveUp i =>
+    simp only [step] at hs
+    cases ho : s.objs[i]? with
+    | none => simp [ho] at hs
+    | some o => simp [ho] at hs; subst hs; exact h
 
 theorem inv_run {s s' : State} {ls : List Label} (h : Inv s) (hr : run s ls = some s') : Inv s' := by
   induction ls generalizing s with
@@ -178,6 +183,20 @@ theorem sweep_fails_readers {s : State} (h : Reachable s) (a j : Nat) (hm : (a, 
     | some k => rw [key_unique hi.keys (lookup_mem hl) hm]
   have hlt : j < s.objs.length := (List.getElem?_eq_some_iff.mp ho).1
   simp [unregisterLocked, hl, ho, readOutcome, hlt]
+
+/-- A Write that ends with its CALLER's context (the caller gave up) leaves the table and every
+    connection as they were: the calls still using the connection are not disturbed. -/
+theorem write_given_up_keeps_connections {s s' : State} {i : Nat} (hs : step s (.writeGaveUp i) = some s') :
+    s' = s ∧ ∀ j, readOutcome s' j = readOutcome s j := by
+  simp only [step] at hs
+  cases ho : s.objs[i]? with
+  | none => simp [ho] at hs
+  | some o => simp [ho] at hs; subst hs; exact ⟨rfl, fun _ => rfl⟩
+
+/-- … whereas a Write that FAILS retires the connection registered under the object's address (the
+    witness that the two labels differ: the reader of a live connection is failed by the one, not by the other) -/
+example : (step { objs := [{ addr := 1 }], table := [(1, 0)] } (.writeFail 0)).map (readOutcome · 0) = some "closed" ∧
+    (step { objs := [{ addr := 1 }], table := [(1, 0)] } (.writeGaveUp 0)).map (readOutcome · 0) = some "pending" := by decide
 
 /-- Behaviour of the code as it is (not demanded by C19, recorded for the maintainers): the cancel hook
     of a failed Write releases the ADDRESS, so a failure of a stale connection object takes the newer
